@@ -519,15 +519,25 @@ fn run_asnset(c: &AsnSets, obs: &mut Obs) -> CheckResult {
             ensure!(s.contains(Asn::from_u32(p)) == m.contains(&p), "contains({}) on {:?}", p, exp);
         }
     }
-    let to_vec = |it: &mut dyn Iterator<Item = Asn>| it.map(|x| x.into_u32()).collect::<Vec<_>>();
-    let u = to_vec(&mut sa.union(&sb));
-    ensure!(u == ma.union(&mb).copied().collect::<Vec<_>>(), "union of {:?} and {:?} = {:?}", ma, mb, u);
-    let i = to_vec(&mut sa.intersection(&sb));
-    ensure!(i == ma.intersection(&mb).copied().collect::<Vec<_>>(), "intersection of {:?} and {:?} = {:?}", ma, mb, i);
-    let d = to_vec(&mut sa.difference(&sb));
-    ensure!(d == ma.difference(&mb).copied().collect::<Vec<_>>(), "difference of {:?} and {:?} = {:?}", ma, mb, d);
-    let s = to_vec(&mut sa.symmetric_difference(&sb));
-    ensure!(s == ma.symmetric_difference(&mb).copied().collect::<Vec<_>>(), "symmetric difference of {:?} and {:?} = {:?}", ma, mb, s);
+    // The operations must equal the mathematical ones *as sets*: every item once,
+    // nothing else. (The order in which an operation yields its items is not
+    // part of the statement; "sorted" is said of a set built from items.)
+    let to_set = |what: &str, it: &mut dyn Iterator<Item = Asn>| -> Result<BTreeSet<u32>, Fail> {
+        let v: Vec<u32> = it.map(|x| x.into_u32()).collect();
+        let set: BTreeSet<u32> = v.iter().copied().collect();
+        if set.len() != v.len() {
+            return Err(Fail::new(format!("{} of {:?} and {:?} yields an item twice: {:?}", what, ma, mb, v)));
+        }
+        Ok(set)
+    };
+    let u = to_set("union", &mut sa.union(&sb))?;
+    ensure!(u == ma.union(&mb).copied().collect::<BTreeSet<_>>(), "union of {:?} and {:?} = {:?}", ma, mb, u);
+    let i = to_set("intersection", &mut sa.intersection(&sb))?;
+    ensure!(i == ma.intersection(&mb).copied().collect::<BTreeSet<_>>(), "intersection of {:?} and {:?} = {:?}", ma, mb, i);
+    let d = to_set("difference", &mut sa.difference(&sb))?;
+    ensure!(d == ma.difference(&mb).copied().collect::<BTreeSet<_>>(), "difference of {:?} and {:?} = {:?}", ma, mb, d);
+    let s = to_set("symmetric difference", &mut sa.symmetric_difference(&sb))?;
+    ensure!(s == ma.symmetric_difference(&mb).copied().collect::<BTreeSet<_>>(), "symmetric difference of {:?} and {:?} = {:?}", ma, mb, s);
     // equality of sets built from permutations
     let mut rev = c.a.clone();
     rev.reverse();
